@@ -517,8 +517,8 @@ class The(ResultQuantifier[T]):
                 result.update(sources)
             else:
                 raise MultipleSolutionFound(result, sol)
-        if result is None:
-            self._is_false_ = True
+        # the verdict of THIS call: a nested the(...) is asked once per row of the query around it.
+        self._is_false_ = result is None
         if self._is_false_:
             if self._yield_when_false_:
                 result = sources
